@@ -564,14 +564,18 @@ func TestCheck(t *testing.T) {
 	reduce := r.Quick()
 	var states, transitions int64
 	var rule []string
+	// scripted chain with every transaction kind, both backends
 	for _, newState := range []bool{false, true} {
 		backend := hist.Backend(newState)
-		// scripted chain with every transaction kind
-		for _, sc := range scriptedCases(r, newState) {
-			checkNode(r, "all-tx-kinds"+backend, backend, newState, sc.nc, sc.db, false)
+		scs := scriptedCases(r, newState)
+		ev.Par(len(scs), 8, func(i int) {
+			checkNode(r, "all-tx-kinds"+backend, backend, newState, scs[i].nc, scs[i].db, false)
 			r.Add("scripted_nodes", 1)
-		}
-		for _, ru := range runs {
+		})
+	}
+	for _, ru := range runs {
+		for _, newState := range []bool{false, true} {
+			backend := hist.Backend(newState)
 			label := ru.cfg.name + backend
 			var reverts int64
 			var mu sync.Mutex
